@@ -4,6 +4,7 @@ import itertools
 from .. import engine
 from ..rules import ranges as rg
 from ..rules import errignored
+from ..rules import minmax
 
 
 def tu_check(tu):
@@ -20,7 +21,7 @@ def tu_check(tu):
 
 def run(tier="quick", seed=0, use_cache=True):
     res = engine.Result("C02")
-    res.rules = ["RANGE-TABLE", "BOUND-NORM", "SEEK-ALGEBRA", "ITER-CONTINUE", "TREE-EXCLUDE", "UNBOUNDED-END", "RANGE-SHAPE", "ENDS-CROSS", "ERR-IGNORED"]
+    res.rules = ["RANGE-TABLE", "BOUND-NORM", "SEEK-ALGEBRA", "ITER-CONTINUE", "TREE-EXCLUDE", "UNBOUNDED-END", "RANGE-SHAPE", "ENDS-CROSS", "ERR-IGNORED", "MINMAX-TABLE"]
     res.exhaustive = True
     res.explanation = (
         "Leaf-level and cursor-level pieces of the range machinery, decided "
@@ -58,9 +59,16 @@ def run(tier="quick", seed=0, use_cache=True):
         "returned or copied until a branch edge has excluded the negative "
         "values; any other use (arithmetic, call argument, index) means the "
         "computation goes on with -1 while the exception is pending. "
-        "The tree-level endpoint search with its move-left/right repair "
-        "(BTree_findRangeEnd, _findbucket) and reachable tree shapes are not "
-        "decided.")
+        "MINMAX-TABLE: minKey(b) / maxKey(b) of the Python leaves and tree "
+        "nodes are walked by an abstract interpreter for every valuation of "
+        "(bound given, container empty, position of the bound in the leaf it "
+        "sorts into: before / hit / between / behind the keys, that leaf has a "
+        "successor, child index 0, the child's smallest key exceeds the "
+        "bound); the outcome - which key slot is returned, which child is "
+        "asked, or ValueError - must equal the specification (a bound behind "
+        "the last key of its leaf is answered by the next leaf's first key). "
+        "The descent of the tree-level endpoint search (BTree_findRangeEnd's "
+        "loop, _findbucket) and reachable tree shapes are not decided.")
     res.assumptions = ["the search index I is the index of the key if found, else the insertion index (BUCKET_SEARCH / _search contract, part of C01)"]
     out = engine.map_tus("sa.props.C02", "tu_check", use_cache=use_cache)
     n = 0
@@ -159,10 +167,12 @@ def run(tier="quick", seed=0, use_cache=True):
     res.count("ITER-CONTINUE", len(it))
     rg.bound_norm_py(res)
     rg.tree_exclude_py(res)
+    mm = minmax.py_check(res)
     res.floor("translation units", len(out), 22)
     res.floor("results of error-reporting repository functions held in locals (OO)", out["OO"]["ei"], 25)
     res.count("ERR-IGNORED", sum(r["ei"] for r in out.values()))
     res.samples = [{"c_range_table_OO": out["OO"]["range"]}, {"seek_effects_OO": out["OO"]["seek"]},
-                   {"python_iter_table": {repr(k): v for k, v in it.items()}}]
+                   {"python_iter_table": {repr(k): v for k, v in it.items()}},
+                   {"python_minmax_tables": mm}]
     res.units = {"translation_units": len(out)}
     return res
